@@ -132,8 +132,16 @@ SymbolicOK(o, xs, fl, res) ==
 (* quantities out of exponents except as a direct non-zero leaf.             *)
 EvidentOK(o, xs, fl) ==
   /\ (o \in {"add2", "add3", "min2", "max2", "mul2", "mul3"} => \A i \in DOMAIN xs : IsAny(xs[i]) => fl[i].e)
+  \* a product with an infinite factor is only decided next to leaves, and one with a zero/NaN factor not next
+  \* to composite pure-number factors (SymPy multiplies unevaluated numeric nodes with its own quirks; the
+  \* collector returns the infinite literal without looking at the sign of composite factors)
+  /\ (o \in {"mul2", "mul3"} =>
+        /\ ((\E i \in DOMAIN xs : xs[i].c \in {"inf", "ninf"}) => \A j \in DOMAIN xs : fl[j].lf)
+        /\ ((\E i \in DOMAIN xs : IsAny(xs[i])) => \A j \in DOMAIN xs : fl[j].lf \/ fl[j].s \/ fl[j].q))
+  \* Min(quantity, negative number) is evaluated by SymPy itself (quantities are positive symbols)
+  /\ (o \in {"min2", "max2"} => \A i, j \in DOMAIN xs : ~(fl[i].q /\ ~fl[j].q /\ ~fl[j].s /\ xs[j].c = "fin" /\ RSign(xs[j].v) < 0))
   /\ (o = "pow" => /\ (IsAny(xs[2]) => fl[2].e)
-                   /\ (xs[1].c = "zero" => ~fl[2].q)      \* 0 ** quantity: SymPy itself collapses it
+                   /\ (IsAny(xs[1]) => ~fl[2].q)          \* 0 ** quantity, nan ** quantity: SymPy itself collapses it
                    /\ (fl[2].q => (fl[2].lf /\ ~IsAny(xs[2])) \/ PowRefused(xs[1], xs[2])))
 
 ResultFlags(o, xs, fl, res) ==
